@@ -18,6 +18,8 @@ fn bad_dens(t: Tok) -> Vec<Den> {
 }
 
 const N0: Tok = Tok::Native(0);
+/// "ustake" (sorts after "ucosm")
+const N1: Tok = Tok::Native(1);
 /// "uusd" and "uusd/vault-7": a bank denom that contains a '/' and whose first segment is another denom
 const N2: Tok = Tok::Native(2);
 const N3: Tok = Tok::Native(3);
@@ -314,6 +316,34 @@ fn drained_cfg(name: &str, version: &'static str, v1: bool) -> Cfg {
     c
 }
 
+/// 0.13.0-stamped storage with two native denoms: the ucosm record is fully drained (outstanding 0 and
+/// the contract holds no ucosm at all, so the bank omits it) and sorts before ustake, which is held
+fn drained_next_to_held_cfg(name: &str) -> Cfg {
+    let mut c = Cfg::base(name);
+    c.channels = 1;
+    c.old = Some(Old {
+        version: "0.13.0",
+        v1: false,
+        counted: vec![(N1, 1)],
+        inflight: vec![],
+        counted_b: vec![],
+        drained: vec![(N0, 2)],
+        may_refuse: false,
+    });
+    c.first_migrate = vec![None, Some(2)];
+    c.funds = vec![(A, N0, 1), (A, N1, 1)];
+    c.senders = vec![A];
+    c.send_toks = vec![N0, N1];
+    c.send_amounts = vec![1];
+    c.proper = vec![Base::Tok(N0), Base::Tok(N1)];
+    c.bad = vec![Den::Foreign(Base::Tok(N0))];
+    c.recv_amounts = vec![1, 2];
+    c.fault_bound = 1;
+    c.fault_kinds = vec![Fault::Reject];
+    c.raws = vec![0];
+    c
+}
+
 /// two channels escrowing the same denomination in amounts at the u64 boundary
 fn u64_two_channels_cfg(name: &str) -> Cfg {
     let mut c = Cfg::base(name);
@@ -363,6 +393,7 @@ fn configs(prop: &str, thorough: bool) -> Vec<(Cfg, Option<usize>)> {
             v.push(v2_two_channels_cfg("C11/upgrade/v2-0.13.0-two-channels-same-denoms"));
             v.push(drained_cfg("C11/upgrade/v2-0.13.0-drained-denom-with-send-in-flight", "0.13.0", false));
             v.push(stray_cfg("C11/upgrade/v2-0.13.0-stray-funds-and-second-migrate"));
+            v.push(drained_next_to_held_cfg("C11/upgrade/v2-0.13.0-drained-denom-next-to-held-denom"));
             v.push(u64_two_channels_cfg("C11/edge/u64-boundary/2ch-same-denom"));
             for mut c in v {
                 c.props = p.clone();
@@ -412,6 +443,7 @@ fn configs(prop: &str, thorough: bool) -> Vec<(Cfg, Option<usize>)> {
             v.push(v2_two_channels_cfg("C12/upgrade/v2-0.13.0-two-channels-same-denoms"));
             v.push(drained_cfg("C12/upgrade/v2-0.13.0-drained-denom-with-send-in-flight", "0.13.0", false));
             v.push(stray_cfg("C12/upgrade/v2-0.13.0-stray-funds-and-second-migrate"));
+            v.push(drained_next_to_held_cfg("C12/upgrade/v2-0.13.0-drained-denom-next-to-held-denom"));
             v.push(drained_cfg("C12/upgrade/v1-0.11.1-drained-denom-with-send-in-flight", "0.11.1", true));
             {
                 // same-version migrate at every reachable state
@@ -532,7 +564,8 @@ fn configs(prop: &str, thorough: bool) -> Vec<(Cfg, Option<usize>)> {
                     } else {
                         vec![None, Some(0), Some(1), Some(u64::MAX)]
                     };
-                    c.admin_targets = vec![G, G2];
+                    // also the empty string and a non-address as the new admin
+                    c.admin_targets = vec![G, G2, ADMIN_EMPTY, ADMIN_GARBAGE];
                     c.migrate_limits = vec![None, Some(0), Some(3)];
                     if thorough {
                         // both users send, payouts to either, one payout/refund fault per history
@@ -568,11 +601,11 @@ fn describe(prop: &str) -> (&'static str, &'static str) {
             "after every step, for every token: real holdings of the ics20 contract (kernel bank / cw20 Balance) >= sum over channels of Channel{id}.balances; monitor per (channel, denom): credit = escrowed by accepted transfers - really paid out (redemptions + refunds, measured as falls of the contract's real balance in steps on that channel) >= 0; a packet whose denom is not a proper voucher of this channel for a local token, or whose amount exceeds the channel balance reported before the step, or that is not ICS-20 data moves no bank or cw20 balance at all; holdings never move in governance / migrate steps",
         ),
         "C12" => (
-            "the C11 alphabet over the governance configurations {no allow list & no default, T1 listed with limit, T1 listed + T2 admitted by the default limit, unlisted token allowed later by governance, (thorough) unlimited, native+cw20}; storages built byte-wise in the 0.11.1 and 0.12.0-alpha1 layout (v1 ics20_config = {default_timeout, gov_contract}, no admin item, no allow list, cw20 T1 outstanding and escrowed, one more T1 send still in flight and not yet counted) and in the 0.13.0 layout (sends in flight escrowed but not yet counted; also a 0.13.0 storage with TWO channels carrying the same denominations, whose migration the real code refuses), each followed by Migrate{None | Some(2)} and then transfers, packets, acks, timeouts, Allow by governance; same-version Migrate{None|Some} at every reachable state; transfers with requested / default timeout, memo set / unset / empty at two block times; amounts 1, 2^64-1, 2^64 for native and cw20 (two sends of 2^64-1 so that a returning packet of 2^64 is covered); a bank denom containing '/' (\"uusd/vault-7\") next to \"uusd\"; a bank coin whose denom is literally \"cw20:<T1>\"",
+            "the C11 alphabet over the governance configurations {no allow list & no default, T1 listed with limit, T1 listed + T2 admitted by the default limit, unlisted token allowed later by governance, (thorough) unlimited, native+cw20}; storages built byte-wise under the literal legacy keys in the 0.11.1 and 0.12.0-alpha1 layout (v1 ics20_config = {default_timeout, gov_contract}, no admin item, no allow list, cw20 T1 outstanding and escrowed, one more T1 send still in flight and not yet counted) and in the 0.13.0 layout (sends in flight escrowed but not yet counted; also a 0.13.0 storage with TWO channels carrying the same denominations, whose migration the real code refuses), each followed by Migrate{None | Some(2)} and then transfers, packets, acks, timeouts, Allow by governance; same-version Migrate{None|Some} at every reachable state; transfers with requested / default timeout, memo set / unset / empty at two block times; amounts 1, 2^64-1, 2^64 for native and cw20 (two sends of 2^64-1 so that a returning packet of 2^64 is covered); a bank denom containing '/' (\"uusd/vault-7\") next to \"uusd\"; a bank coin whose denom is literally \"cw20:<T1>\"",
             "reference per (channel, denom): outstanding = accepted sends - sends whose error-ack/timeout was processed - amounts of incoming packets answered with a success ack, compared with Channel{id}.balances after every step; total_sent never falls; per incoming packet: ibc_packet_receive never returns Err/panics; success ack => receiver's real balance rose by exactly the amount and the channel balance fell by it; error ack => ALL Channel queries, all bank and cw20 balances, Config, Admin, ListAllowed, Allowed and the packets in flight equal the pre-state; per accepted transfer: exactly one committed IbcMsg::SendPacket, by the ics20 contract, on the requested channel, data == {amount (<= 2^64-1), denom (native name | cw20:<token>), receiver, sender = paying user, memo iff requested}, timeout timestamp == block time + (requested | default) seconds, contract holdings rose and payer's balance fell by the amount; migrations leave balances alone and arrive at outstanding == escrow",
         ),
         "C18" => (
-            "initial allow lists [] | [T1:unlimited] | [T1:1] x default gas limit None | 2; Allow{T1|T2, None|0|1|2^64-2|2^64-1} (0 and u64::MAX are genuine limits) and UpdateAdmin{G|G2} by governance G, the later/former governance G2 and a stranger X who is the contract's chain-level (wasm) admin; initial default gas limit None | 2 | 0; Migrate{None|0|3} at every state; cw20 transfers of T1 (by user A) and of T2 (by the governance account G itself, which becomes the former governance after UpdateAdmin), native transfers, and transfers of a BANK coin whose denom is literally \"cw20:<T2>\"; incoming packets redeeming them, also with amount 0; error acks and timeouts that trigger refunds",
+            "initial allow lists [] | [T1:unlimited] | [T1:1] x default gas limit None | 2; Allow{T1|T2, None|0|1|2^64-2|2^64-1} (0 and u64::MAX are genuine limits) and UpdateAdmin{G|G2|\"\"|\"not-an-address\"} by governance G, the later/former governance G2 and a stranger X who is the contract's chain-level (wasm) admin; initial default gas limit None | 2 | 0; Migrate{None|0|3} at every state; cw20 transfers of T1 (by user A) and of T2 (by the governance account G itself, which becomes the former governance after UpdateAdmin), native transfers, and transfers of a BANK coin whose denom is literally \"cw20:<T2>\"; incoming packets redeeming them, also with amount 0; error acks and timeouts that trigger refunds",
             "reference {gov, allow: token -> limit, default} == Admin, Config.gov_contract, Config.default_gas_limit, fully paged ListAllowed, Allowed{T1}, Allowed{T2} after every step; Allow / UpdateAdmin accepted only from the reference governance; admin, allow list and default change in no other step (migrate may set, never unset, the default); a listed token never disappears, its limit never falls, unlimited stays unlimited (checked against the reference and, independently, pre vs. post listing); a cw20 transfer is accepted only if the token is listed or a default exists; every payout / refund sub-message dispatched by the contract carries gas_limit == allow[token] if listed (None if unlimited) else the default, native payouts carry none; a cw20 token that is listed or covered by a default stays redeemable: a returning voucher / error ack / timeout whose amount the channel balance covers issues a payout sub-call to the token",
         ),
         _ => ("", ""),
